@@ -30,7 +30,11 @@ Definition wfb (g : graph) : bool :=
 Fixpoint insert_all (xs seen : list Z) : list Z :=
   match xs with [] => seen | x :: r => insert_all r (if memb x seen then seen else x :: seen) end.
 Fixpoint grow (adj : Z -> list Z) (fuel : nat) (seen : list Z) : list Z :=
-  match fuel with O => seen | S f => grow adj f (insert_all (flat_map adj seen) seen) end.
+  match fuel with
+  | O => seen
+  | S f => let seen' := insert_all (flat_map adj seen) seen in
+           if Nat.eqb (length seen') (length seen) then seen else grow adj f seen'
+  end.
 Definition closedb (adj : Z -> list Z) (Rs : list Z) : bool :=
   forallb (fun u => forallb (fun v => memb v Rs) (adj u)) Rs.
 (** the set reachable from [r] along [adj], or None when [fuel] rounds did not reach the fixpoint *)
@@ -151,15 +155,21 @@ Definition layers_cert (g : graph) (s : Z) (layers : list (list Z)) (d : list (Z
 Definition perm_cert (g : graph) (l : list Z) : bool := wfb g && nodupb l && same_set l (nodes g).
 
 (** * Components *)
+(** reach sets of all nodes, computed once *)
+Definition reach_table (adj : Z -> list Z) (fuel : nat) (ns : list Z) : list (Z * option (list Z)) :=
+  map (fun u => (u, reach_ok adj fuel u)) ns.
+Definition table_get (tbl : list (Z * option (list Z))) (u : Z) : option (list Z) :=
+  match find (fun p => fst p =? u) tbl with Some p => snd p | None => None end.
 Definition classes_cert (g : graph) (adj : Z -> list Z) (mutual : bool) (lab : list (Z * Z)) : bool :=
+  let tbl := reach_table adj (fuel_of g) (nodes g) in
   wfb g && forallb (fun u => is_some (lookup lab u)) (nodes g)
   && forallb (fun kv => memb (fst kv) (nodes g)) lab
   && forallb (fun u =>
-       match reach_ok adj (fuel_of g) u with
+       match table_get tbl u with
        | None => false
        | Some Su =>
            forallb (fun v =>
-             match reach_ok adj (fuel_of g) v with
+             match table_get tbl v with
              | None => false
              | Some Sv => Bool.eqb (oz_eqb (lookup lab u) (lookup lab v))
                                    (memb v Su && (negb mutual || memb u Sv))
